@@ -28,6 +28,8 @@ type Lens[S, A any] interface {
 
 // NewLens instantiates a typed Lens[S, A] for hseq.Type[S]
 func NewLens[S, A any](t hseq.Type[S]) Lens[S, A] {
+	assertContainer(t)
+
 	ft := t.Type
 	fv := reflect.TypeOf(new(A)).Elem()
 
@@ -37,6 +39,15 @@ func NewLens[S, A any](t hseq.Type[S]) Lens[S, A] {
 
 	cat := reflect.TypeOf(new(S)).Elem()
 	panic(fmt.Errorf("invalid type: Lens[%s, %s] not compatible with %s", cat.Name(), ft.Name(), fv.Name()))
+}
+
+// A lens addresses its focus relative to the container value,
+// therefore the container type has to be a struct.
+func assertContainer[S any](t hseq.Type[S]) {
+	cat := reflect.TypeOf(new(S)).Elem()
+	if cat.Kind() != reflect.Struct {
+		panic(fmt.Errorf("invalid type: Lens container %s is not a struct", cat))
+	}
 }
 
 type lens[S, A any] struct{ hseq.Type[S] }
